@@ -1919,7 +1919,8 @@ func (p *Parser) parseConditionVarOperator(expression *ast.OperatorExpression) e
 			} else if p.curToken.Type == token.RPAREN {
 				if numOpenParens == 0 {
 					p.nextToken()
-					if len(parts) > 1 {
+					// A single constant can stand for several tokens, so look at the expanded text too.
+					if len(parts) > 1 || (len(parts) == 1 && strings.Contains(parts[0], " ")) {
 						parts = append(parts, ")")
 						parts = append([]string{"("}, parts...)
 					}
